@@ -2,7 +2,8 @@
    Only statements; proofs live in theories/Path. *)
 From Coq Require Import String List NArith Bool.
 From Coq Require Import Lia.
-From BFG Require Import Base.Chars Path.PathAlg Path.PathAlgProofs Path.PathAlgMk Path.PathAlgRt Path.PathAlgNested.
+From BFG Require Import Base.Chars Path.PathAlg Path.PathAlgProofs Path.PathAlgMk Path.PathAlgRt Path.PathAlgNested
+                        Path.PathAlgWf Path.PathAlgOrder.
 Import ListNotations.
 
 (* Whatever string, root (plain or a base path) and flags the constructor accepts, the stored components
@@ -106,7 +107,47 @@ Theorem C12_uniquetrees_refuted : exists a b,
 Proof. eexists. eexists. vm_compute. repeat split. Qed.
 Print Assumptions C12_uniquetrees_refuted.
 
+(* ---- phase 2: the algebraic laws, proved over the same model ---- *)
+
+(* Python compares the component lists lexicographically; the common prefix (lcp) of the minimum and the maximum
+   of a non-empty family is the longest common prefix of the whole family *)
+Theorem C12_lcp_min_max : forall x l,
+  (forall y, In y (x :: l) -> prefix (lcp (list_min x l) (list_max x l)) y) /\
+  (forall d, (forall y, In y (x :: l) -> prefix d y) -> prefix d (lcp (list_min x l) (list_max x l))).
+Proof. exact lcp_min_max. Qed.
+Print Assumptions C12_lcp_min_max.
+
+(* commonprefix of a non-empty list of well-formed paths under one non-absolute root, not all of them the root
+   directory itself, returns a well-formed path under the same root whose component list is a prefix of every
+   input (component-wise) and maximal: every common component prefix is a prefix of it.  The result is flagged a
+   non-directory exactly when all inputs have the same components. *)
+Theorem C12_commonprefix : forall p0 rest,
+  (forall p, In p (p0 :: rest) -> wfp p) ->
+  (forall p, In p (p0 :: rest) -> p_root p = p_root p0) ->
+  root_eqb (p_root p0) Absolute = false ->
+  existsb (fun p => negb (is_nil (p_comps p))) (p0 :: rest) = true ->
+  exists r, commonprefix (p0 :: rest) = Some (Some r) /\ wfp r /\ p_root r = p_root p0 /\ p_destdir r = false /\
+    (forall p, In p (p0 :: rest) -> prefix (p_comps r) (p_comps p)) /\
+    (forall d, (forall p, In p (p0 :: rest) -> prefix d (p_comps p)) -> prefix d (p_comps r)) /\
+    (p_dir r = false <-> forall p, In p (p0 :: rest) -> p_comps p = p_comps p0).
+Proof. exact commonprefix_spec. Qed.
+Print Assumptions C12_commonprefix.
+
+(* the guard is needed: when every input is the root directory itself commonprefix raises *)
+Theorem C12_commonprefix_rootdir_refuted : exists a,
+  mk (STR "") (RRoot Srcdir) None None = Some a /\ wfp a /\ commonprefix [a; a] = None.
+Proof.
+  eexists. split; [vm_compute; reflexivity|]. split; [|vm_compute; reflexivity].
+  constructor; cbn; try reflexivity; try lia; try discriminate; try constructor.
+Qed.
+Print Assumptions C12_commonprefix_rootdir_refuted.
+
 (* non-vacuity *)
+Example ex_commonprefix : exists a b c r,
+  mk (STR "x/foo/a") (RRoot Srcdir) None None = Some a /\ mk (STR "x/foo.c") (RRoot Srcdir) None None = Some b /\
+  mk (STR "x/foo") (RRoot Srcdir) None None = Some c /\
+  commonprefix [a; b; c] = Some (Some r) /\ p_comps r = [STR "x"] /\ p_dir r = true.
+Proof. do 4 eexists. vm_compute. repeat split. Qed.
 Example ex_wfp : exists p, mk (STR "a\.\b/../c.x//") (RRoot Builddir) None None = Some p /\ wfp p
                            /\ to_json p = (STR "a/c.x/", STR "builddir", false).
 Proof.
